@@ -147,16 +147,21 @@ def correspond(ctx):
                 for lay in dict.fromkeys(lays):
                     if stack and lay in ('column', 'row'):
                         continue
-                    variants = [(False, False), (True, False)] if lay in ('contiguous', 'strided') else [(False, False)]
-                    # optional code paths that are off by default (pre-smoothing etc.) and every banded_solver value
-                    act = activated(e, kw0)
-                    if act and lay in ('contiguous', 'readonly'):
-                        variants.append((False, True))
-                    for raising, activate in variants:
+                    variants = [(False, None), (True, None)] if lay in ('contiguous', 'strided') else [(False, None)]
+                    # optional code paths that are off by default (pre-smoothing etc.): every single-parameter variant, with the
+                    # SciPy solvers (they honour overwrite flags) on the caller's own contiguous array
+                    if lay == 'contiguous' and xord == 'sorted':
+                        svs = M.single_variants(name, e, two_d, base=kw0)
+                        if not ctx.thorough and len(svs) > 8:
+                            svs = [svs[i] for i in sorted(rng.choice(len(svs), 8, replace=False))]
+                        variants += [(False, kwv) for kwv in svs]
+                    for raising, kwv in variants:
+                        activate = kwv is not None
+                        act = {k: v for k, v in (kwv or {}).items() if kw0.get(k, '<absent>') != v}
                         objs = {}
                         kw = dict(kw0)
                         if activate:
-                            kw.update(act)
+                            kw = dict(kwv)
                         solver = int(rng.integers(1, 5)) if not activate else (3 + int(rng.integers(0, 2)))
                         objs['data'] = layout(data0, lay if not (two_d and lay in ('column', 'row')) else 'contiguous', rng)
                         xin = layout(x, lay if lay in ('contiguous', 'strided', 'readonly', 'list') else 'contiguous', rng)
@@ -212,7 +217,7 @@ def correspond(ctx):
                                 outcome = 'raised:' + type(ex).__name__
                                 err = str(ex)
                         after = {k: snap(v) for k, v in objs.items()}
-                        canon = (dim, name, xord, lay, raising, activate, solver, tuple(sorted(objs)))
+                        canon = (dim, name, xord, lay, raising, repr(sorted(act.items())) if activate else '', solver, tuple(sorted(objs)))
                         ctx.case(canon, nontrivial=bool(optional) or lay != 'contiguous' or len(objs) > 2,
                                  sample={'method': f'{dim}:{name}', 'x': xord, 'layout': lay, 'objects': sorted(objs), 'call': 'raising' if raising else 'returning'}
                                  if len(ctx.samples) < 5 and optional else None)
